@@ -413,7 +413,19 @@ def INFDR(target, lo, hi):
     return ('fd', 'infdrange', target, (lo, hi))
 
 
-def finite_domains():
+def finite_domains(tier='quick'):
+    modes = ('reverse',) if tier == 'quick' else ('reverse', 'rotate', 'swap', 'alternate')
+    out = []
+    import os
+    seed = int(os.environ.get('VERIF_SEED', '0') or 0)
+    for (name, prog_, npar, mode, limit, extra) in _finite_domains() + random_fd_programs(seed, 12 if tier == 'quick' else 200):
+        extra = dict(extra)
+        extra['hash_modes'] = modes
+        out.append((name, prog_, npar, mode, limit, extra))
+    return out
+
+
+def _finite_domains():
     """CLP(FD) programs: concrete small domains (negative, mixed-sign, sparse), symbolic constants,
     aliasing of operands, constraints posted before / after domains and bindings."""
     t = []
@@ -450,6 +462,16 @@ def finite_domains():
     t.append(T('fd_sparse_then_interval', [FRESH(['x'], EQ(q, x), INFD(x, [1, 3, 5]), INFDR(x, 2, 4))], 'multiset', 40))
     t.append(T('fd_interval_then_sparse', [FRESH(['x'], EQ(q, x), INFDR(x, 2, 4), INFD(x, [1, 3, 5]))], 'multiset', 40))
     t.append(T('fd_sparse_interval_unified', [FRESH(['x', 'y'], EQ(q, L(x, y)), INFD(x, [1, 3, 5]), INFDR(y, 2, 4), OP('conde', EQ(x, y), EQ(y, x)))], 'multiset', 40))
+    HM = {}
+    abcd = L(V('a'), V('b'), V('c'), V('d'))
+    t.append(T('fd_store_order_contradiction', [FRESH(['a', 'b', 'c', 'd'], EQ(q, abcd), INFDR(abcd, 0, 3), REL('ltefd', V('d'), V('b')), REL('minusfd', V('c'), V('d'), V('a')), REL('plusfd', V('b'), N(1), V('d')))], 'multiset', 80, **HM))
+    t.append(T('fd_store_order_contradiction_dom_last', [FRESH(['a', 'b', 'c', 'd'], EQ(q, abcd), REL('ltefd', V('d'), V('b')), REL('minusfd', V('c'), V('d'), V('a')), REL('plusfd', V('b'), N(1), V('d')), INFDR(abcd, 0, 3))], 'multiset', 80, **HM))
+    h1, h2 = V('h1'), V('h2')
+    all5 = L(V('a'), V('b'), V('c'), h1, h2)
+    inflight = [REL('distinctfd', L(V('a'), V('b'), h1, V('c'))), REL('minusfd', h1, V('a'), V('c')), REL('minusfd', h2, h1, V('c')), REL('timesfd', h2, V('b'), V('a'))]
+    t.append(T('fd_store_order_in_flight', [FRESH(['a', 'b', 'c', 'h1', 'h2'], EQ(q, all5), INFDR(all5, 0, 4), *inflight)], 'multiset', 80, **HM))
+    t.append(T('fd_store_order_in_flight_dom_last', [FRESH(['a', 'b', 'c', 'h1', 'h2'], EQ(q, all5), *(inflight + [INFDR(all5, 0, 4)]))], 'multiset', 80, **HM))
+    t.append(T('fd_first_run_in_flight', [FRESH(['x', 'y', 'z'], REL('plusfd', x, P(0), y), INFD(x, [0, 3, 4]), INFDR(y, 1, 3), EQ(q, xyz), REL('distinctfd', L(z, x, y)), INFDR(z, 0, 3), REL('timesfd', x, z, y))], 'multiset', 40))
     t.append(T('fd_list_query', [FRESH(['x', 'y'], EQ(q, L(L(x), y)), INFDR(L(x, y), 0, 1), REL('diseqfd', x, y))], 'multiset', 40))
     return t
 
@@ -539,21 +561,37 @@ def fairness():
     t.append(T('fair_two_always', [OP('conde', [REL('always'), EQ(q, P(0))], [REL('always'), EQ(q, P(1))])], 'covers', 6))
     t.append(T('fair_always_and_finite', [OP('conde', [REL('always'), EQ(q, P(0))], EQ(q, P(1)), [REL('never'), EQ(q, P(2))])], 'covers', 6))
     t.append(T('fair_loop_branch', [OP('conde', [('loop', [EQ(q, P(0))])], EQ(q, P(1)))], 'covers', 6))
+    t.append(T('fair_nevero_first', [OP('conde', REL('nevero', q), EQ(q, P(0)))], 'covers', 1))
+    t.append(T('fair_nevero_nested', [OP('conde', EQ(q, P(0)), OP('conde', REL('nevero', q), EQ(q, P(1))))], 'covers', 2))
+    t.append(T('fair_dfs_never_branch', [OP('conde', ('dfs', [REL('spin')]), EQ(q, P(0)))], 'covers', 1))
+    t.append(T('fair_dfs_cond_never_branch', [OP('conde', ('dfs', [OP('cond', [REL('spin'), EQ(q, P(0))], REL('spin'))]), REL('member', q, L(P(1), P(2))))], 'covers', 2))
+    t.append(T('fair_onceo_never_branch', [OP('conde', EQ(q, P(0)), ('onceo', [REL('never')]))], 'covers', 1))
+    t.append(T('fair_onceo_never_first', [OP('conde', ('onceo', [REL('never')]), EQ(q, P(0)))], 'covers', 1))
+    t.append(T('fair_conda_never_head', [OP('conde', OP('conda', [REL('never'), EQ(q, P(1))]), EQ(q, P(0)))], 'covers', 1))
+    t.append(T('fair_condu_nevero_head', [OP('conde', EQ(q, P(0)), OP('condu', [REL('nevero', q), EQ(q, P(2))]))], 'covers', 1))
+    t.append(T('fair_onceo_slow_head', [OP('conde', ('onceo', [REL('always'), REL('member', q, L(P(0), P(1)))]), EQ(q, P(2)))], 'covers', 2))
     t.append(T('fair_nested', [OP('conde', OP('conde', REL('never'), [REL('always'), EQ(q, P(0))]), EQ(q, P(1)))], 'covers', 6))
     return t
 
 
-def determinism():
+def determinism(tier='quick'):
     """C09: programs whose constraint / domain stores hold several entries while they are iterated."""
     t = []
-    H = dict(hash_orders=2)
+    H = dict(hash_orders=2, order_modes=('reverse',) if tier == 'quick' else ('reverse', 'rotate', 'alternate', 'swap'))
     t.append(T('det_fd_two_constraints', [FRESH(['x', 'y', 'z'], EQ(q, L(x, y, z)), INFDR(L(x, y, z), 0, 2), REL('ltefd', x, y), REL('diseqfd', y, z), REL('ltefd', z, P(0)))], 'multiset', 40, **H))
     t.append(T('det_fd_plus_lte', [FRESH(['x', 'y'], EQ(q, L(x, y)), INFDR(L(x, y), -1, 2), REL('plusfd', x, y, P(0)), REL('ltefd', x, y), REL('diseqfd', x, P(1)))], 'multiset', 40, **H))
     t.append(T('det_fd_hidden', [FRESH(['x', 'y', 'z'], EQ(q, x), INFDR(L(x, y, z), 0, 2), REL('ltfd', y, x), REL('diseqfd', z, x))], 'multiset', 40, **H))
     t.append(T('det_diseq_three', [FRESH(['x', 'y'], EQ(q, L(x, y)), NE(x, P(0)), NE(y, P(1)), NE(L(x, y), L(P(1), P(0))), OP('conde', EQ(x, P(1)), EQ(y, P(0))))], 'multiset', 40, **H))
     t.append(T('det_distinct', [FRESH(['x', 'y', 'z'], EQ(q, L(x, y, z)), INFDR(L(x, y, z), 0, 2), REL('distinctfd', L(x, y, z)), REL('ltefd', x, P(0)))], 'multiset', 40, **H))
     t.append(T('det_clpz_store', [FRESH(['x', 'y', 'z'], EQ(q, L(x, y, z)), REL('plusz', x, y, z), REL('timesz', x, P(0), y), NE(z, P(1)), EQ(x, P(2)))], 'multiset', 40, **H))
+    t.append(T('det_hidden_labeling', [FRESH(['x', 'y'], INFDR(L(x, y), 1, 2), REL('diseqfd', x, y), NE(q, x))], 'multiset', 40, **H))
+    t.append(T('det_hidden_labeling3', [FRESH(['x', 'y', 'z'], INFDR(L(x, y, z), 0, 2), REL('distinctfd', L(x, y, z)), EQ(q, L(P(0), z)))], 'multiset', 40, **H))
+    t.append(T('det_hidden_lt_chain', [FRESH(['x', 'y', 'z'], INFDR(L(x, y, z), 0, 3), REL('ltfd', x, y), REL('ltfd', y, z), REL('plusfd', x, z, q), INFDR(q, 0, 6))], 'multiset', 40, **H))
+    t.append(T('det_queens3', [FRESH(['x', 'y', 'z', 'w', 'v'], EQ(q, L(x, y, z)), INFDR(L(x, y, z), 1, 4), REL('distinctfd', L(x, y, z)), REL('diseqfd', x, y), REL('plusfd', x, N(1), w), INFDR(w, 0, 6), REL('diseqfd', w, y), REL('plusfd', y, N(1), V('v')), INFDR(V('v'), 0, 6), REL('diseqfd', V('v'), z))], 'multiset', 80, **H))
     t.append(T('det_fused_empty', [EQ(q, P(0)), EQ(q, P(1))], 'multiset', 40))
+    t.append(T('det_diseq_subsumed_later', [FRESH(['x', 'y', 'z'], EQ(q, L(x, y, z)), NE(L(x, y), L(P(0), P(1))), NE(z, P(2)), NE(y, P(2)), NE(x, P(0)))], 'multiset', 40, **H))
+    t.append(T('det_lazy_dfs_prefix', [('dfs', [OP('cond', REL('member', q, L(P(0), P(1))), REL('spin'))])], 'covers', 2))
+    t.append(T('det_lazy_dfs_branch', [OP('conde', ('dfs', [OP('cond', [REL('spin'), EQ(q, P(0))], REL('spin'))]), REL('member', q, L(P(1), P(2))))], 'covers', 2))
     t.append(T('det_lazy_prefix', [OP('conde', [('loop', [EQ(q, P(0))])], EQ(q, P(1)))], 'covers', 5))
     return t
 
@@ -581,6 +619,8 @@ def _rterm(rng, vs, depth=1, atoms=True):
 
 def _rgoal_tree(rng, vs, depth):
     r = rng.random()
+    if depth < 0:
+        r *= 0.65          # simple goals only (==, !=)
     if r < 0.4:
         return EQ(_rterm(rng, vs), _rterm(rng, vs))
     if r < 0.65:
@@ -596,11 +636,15 @@ def _rgoal_tree(rng, vs, depth):
             cl = [_rgoal_tree(rng, vs, depth - 1) for _ in range(rng.randrange(1, 3))]
             if rng.random() < 0.12:
                 cl.insert(rng.randrange(len(cl) + 1), rng.choice([TRUE, FALSE]))
+            if op == 'condu':
+                # which answer of a head with several answers comes first is decided by the interleaving, which the
+                # reference does not fix: condu heads have at most one answer here
+                cl.insert(0, _rgoal_tree(rng, vs, -1))
             cls.append(cl)
-        if rng.random() < 0.1:
+        if rng.random() < 0.1 and op != 'condu':
             cls.insert(rng.randrange(len(cls) + 1), [rng.choice([TRUE, FALSE])])
         return (op, cls)
-    return ('onceo', [_rgoal_tree(rng, vs, depth - 1)])
+    return ('onceo', [_rgoal_tree(rng, vs, -1) for _ in range(rng.randrange(1, 3))])
 
 
 def random_tree_programs(seed, n, tag='rt'):
